@@ -405,13 +405,17 @@ impl Driver {
                 }
             }
             Op::Reorg { n } => {
-                if ok && (*n as i64) < self.height {
+                // an accepted reorg rolls every table back to n and writes the result out, also when
+                // n is the current height (then only entries of an open block of parked transactions go)
+                if ok && (*n as i64) <= self.height {
                     self.chain.truncate(*n as usize + 1);
                     self.chain_resp.truncate(*n as usize + 1);
                     self.height = *n as i64;
                     self.committed = self.height;
                     self.cur.clear();
                     self.cur_resp.clear();
+                    self.ntx = 0;
+                    self.open = None;
                 }
             }
             Op::Raw { .. } => {}
@@ -780,6 +784,33 @@ impl World {
                 d.exec(op)
             }
         }
+    }
+
+    /// Open the next block with nothing but signed transactions whose nonce is ahead of the account:
+    /// they are parked, the block has no executed transaction, so a reorg is still accepted.
+    /// Returns the number of transactions parked.
+    pub fn park_only(&mut self, d: &mut Driver) -> u64 {
+        if self.signers.is_empty() || d.ntx != 0 {
+            return 0;
+        }
+        let blk = self.block_ctx(d);
+        let mut parked = 0;
+        for _ in 0..self.rng.range(1, 2) {
+            let si = self.rng.below(self.signers.len() as u64) as usize;
+            let signer = self.signers[si].clone();
+            let cur = account_nonce(&mut d.inst, &signer.addr);
+            let nonce = cur + self.rng.range(1, 9);
+            let mut data = asm::tool_init();
+            data.extend_from_slice(&[0xee, si as u8]);
+            let raw = signer.sign(Some(self.chain_id), nonce, None, &data);
+            let len = (raw.len() / 2) as u64 + 100_000;
+            let ctx = Ctx { ts: blk.0, hash: blk.1.clone(), idx: d.ntx };
+            let r = d.exec(Op::Transact { raw: format!("0x{}", raw), enc: Enc::Hex, ctx, iid: self.iid(), len, txid: self.txid() });
+            if r.is_ok() && receipts_in(&r).is_empty() {
+                parked += 1;
+            }
+        }
+        parked
     }
 
     /// Generate and execute one whole block (possibly empty / mined).
